@@ -114,6 +114,11 @@ pub struct World {
     pub stats: ExecStats,
     pub inject_prob: (u64, u64),
     pub inject_max: u32,
+    /// probability that a write towards an endpoint whose I/O object is gone fails with
+    /// BrokenPipe (otherwise the bytes are silently discarded, like a lingering close)
+    pub gone_write_err: (u64, u64),
+    /// a task panicked: h2's locks may be poisoned, stop the execution and leak the world
+    pub poisoned: bool,
     /// activity counter: bumped by every I/O byte and API event; used by the busy-loop detector
     pub activity: u64,
 }
@@ -128,6 +133,8 @@ pub fn install(seed: u64, sched: Sched) {
         stats: ExecStats::default(),
         inject_prob: (0, 1),
         inject_max: 0,
+        gone_write_err: (1, 2),
+        poisoned: false,
         activity: 0,
     };
     WORLD.with(|c| *c.borrow_mut() = Some(w));
@@ -355,12 +362,18 @@ fn poll_task(id: u32, injected: bool) {
         }
         Err(p) => {
             let msg = panic_message(p);
-            // the future is poisoned; leak-free drop attempt under a catcher
-            let _ = catch_unwind(AssertUnwindSafe(move || drop(fut)));
+            // h2's shared state may be poisoned now: running the destructors of the handles this
+            // future owns would panic inside panics (abort). Leak them; the execution is over anyway.
+            std::mem::forget(fut);
             with(|w| {
                 let name = w.tasks[id as usize].name.clone();
                 w.tasks[id as usize].done = true;
                 w.stats.panics.push(format!("task {}: {}", name, msg));
+                // the test-only drop assertions of h2's `unstable` feature fire while the shared state
+                // is being destroyed, not while it is locked: nothing is poisoned, keep running
+                if !(msg.contains("self.slab.is_empty()") || msg.contains("!self.has_streams()")) {
+                    w.poisoned = true;
+                }
                 w.trace.push(0, EvK::Note(format!("PANIC in task {}: {}", name, msg)));
             });
         }
@@ -391,6 +404,9 @@ pub enum RunEnd {
 pub fn run(max_steps: u64) -> RunEnd {
     let mut steps = 0u64;
     loop {
+        if with(|w| w.poisoned) {
+            return RunEnd::Quiescent;
+        }
         let c = with(choose);
         match c {
             None => return RunEnd::Quiescent,
